@@ -38,7 +38,7 @@ pub fn def() -> PropDef {
     }
 }
 
-fn run(sim: &Sim, cfg: &RunCfg) -> RunOut {
+pub fn run(sim: &Sim, cfg: &RunCfg) -> RunOut {
     sim.choose_policy();
     let rw = sim.with_w(|t| t.chance(1, 2));
     if rw {
